@@ -26,7 +26,7 @@ Theorem C17_discipline_sound : forall pol exc tbl init sched st,
     i <> j -> nth_error st i = Some ti -> nth_error st j = Some tj ->
     next_acc ti = Some s1 -> next_acc tj = Some s2 ->
     conflict s1 s2 = true ->
-    excused pol exc s1 s2 = true.
+    excused pol exc tbl s1 s2 = true.
 Proof. exact discipline_sound. Qed.
 
 (* the same with a purely syntactic hypothesis on the programs (per-thread lock-set check) *)
@@ -40,7 +40,7 @@ Theorem C17_discipline_sound_static : forall pol exc tbl init sched st,
     i <> j -> nth_error st i = Some ti -> nth_error st j = Some tj ->
     next_acc ti = Some s1 -> next_acc tj = Some s2 ->
     conflict s1 s2 = true ->
-    excused pol exc s1 s2 = true.
+    excused pol exc tbl s1 s2 = true.
 Proof. exact discipline_sound_static. Qed.
 
 (* lock semantics: an exclusively held lock is held by nobody else, in every reachable state *)
@@ -51,9 +51,9 @@ Theorem C17_mutual_exclusion : forall init sched st,
 Proof. exact reachable_lock_inv. Qed.
 
 (* "excused" means exactly: an excepted field, or a listed HBVia pair of that field's policy *)
-Theorem C17_excused_cases : forall pol exc a b, excused pol exc a b = true ->
+Theorem C17_excused_cases : forall pol exc tbl a b, excused pol exc tbl a b = true ->
   in_keys exc (site_key a) = true \/
-  exists n ps, In (site_key a, HBVia n ps) pol /\ pair_listed ps (s_func a) (s_func b) = true.
+  exists n ps, In (site_key a, HBVia n ps) pol /\ pair_listed tbl ps a b = true.
 Proof. exact excused_cases. Qed.
 
 (* the helper-propagation certificate carried by the table is sound for every call chain *)
@@ -83,7 +83,7 @@ Theorem C17_no_race_in_extracted_table : forall init sched st,
     i <> j -> nth_error st i = Some ti -> nth_error st j = Some tj ->
     next_acc ti = Some s1 -> next_acc tj = Some s2 ->
     conflict s1 s2 = true ->
-    excused policy_all exceptions s1 s2 = true.
+    excused policy_all exceptions table s1 s2 = true.
 Proof. exact (fun init sched st => discipline_sound policy_all exceptions table init sched st C17_table_ok). Qed.
 
 Print Assumptions C17_discipline_sound.
@@ -111,7 +111,7 @@ Example C17_ex_sync_reassign_refuted :
   table_ok mini_pol [] (mini [site_ctor; site_wr Ex; site_rd; site_once_reassign]) = false.
 Proof. exact ex_sync_reassign_rejected. Qed.
 Example C17_ex_hbvia_unlisted_pair_refuted :
-  table_ok [(("c.R", "ch"), HBVia "p" [("c.R.boot", "c.R.Run")])] [] hb_tbl = true /\
+  table_ok [(("c.R", "ch"), HBVia "p" [HB "c.R.boot" "c.R.Run"])] [] hb_tbl = true /\
   table_ok [(("c.R", "ch"), HBVia "p" [])] [] hb_tbl = false.
 Proof. exact ex_hbvia_listed_or_rejected. Qed.
 Example C17_ex_entry_certificate_checked :
@@ -128,7 +128,7 @@ Example C17_ex_rlock_writer_races :
   exists st ti tj, run (init2 Sh) [0; 1] = Some st /\
     nth_error st 0 = Some ti /\ nth_error st 1 = Some tj /\
     next_acc ti = Some (site_wr Sh) /\ next_acc tj = Some site_rd /\
-    conflict (site_wr Sh) site_rd = true /\ excused mini_pol [] (site_wr Sh) site_rd = false.
+    conflict (site_wr Sh) site_rd = true /\ excused mini_pol [] mini_broken (site_wr Sh) site_rd = false.
 Proof. exact ex_rlock_writer_races. Qed.
 Example C17_ex_repaired_shape_runs :
   exists st, run (init2 Ex) [0; 0; 0; 1; 1; 1] = Some st /\ forall t, In t st -> prog t = [].
